@@ -1104,6 +1104,11 @@ fn splitmix(state: &mut u64) -> u64 {
 /// mate the single checker is a piece of kind `kind`. Built by bounded randomized construction
 /// (all choices derived from `seed`) and accepted by the reference rules.
 pub fn construct_terminal(ks: u8, kind: P, mated: Side, stalemate: bool, seed: u64) -> Option<Pos> {
+    construct_terminal_at(ks, kind, mated, stalemate, seed, None, None)
+}
+
+/// As `construct_terminal`, with the checker on a given square and a square that stays empty.
+pub fn construct_terminal_at(ks: u8, kind: P, mated: Side, stalemate: bool, seed: u64, checker_at: Option<u8>, keep_empty: Option<u8>) -> Option<Pos> {
     let att = mated.other();
     let mut rng = seed ^ ((ks as u64) << 40) ^ ((kind as u64) << 48);
     let pawn_ok = |s: u8| rank_of(s) != 0 && rank_of(s) != 7;
@@ -1114,7 +1119,9 @@ pub fn construct_terminal(ks: u8, kind: P, mated: Side, stalemate: bool, seed: u
         p.sq[ks as usize] = Some((P::King, mated));
         let mut cs: Option<u8> = None;
         if !stalemate {
-            let cands: Vec<u8> = (0..64u8).filter(|&s| s != ks && (kind != P::Pawn || pawn_ok(s)) && p.piece_attacks(s, kind, att, ks)).collect();
+            let cands: Vec<u8> = (0..64u8)
+                .filter(|&s| s != ks && checker_at.map_or(true, |c| c == s) && (kind != P::Pawn || pawn_ok(s)) && p.piece_attacks(s, kind, att, ks))
+                .collect();
             if cands.is_empty() {
                 return None;
             }
@@ -1123,11 +1130,11 @@ pub fn construct_terminal(ks: u8, kind: P, mated: Side, stalemate: bool, seed: u
             cs = Some(c);
         }
         // the other king
-        let free_far: Vec<u8> = (0..64u8).filter(|&s| p.sq[s as usize].is_none() && !adjacent(s, ks) && s != ks).collect();
+        let free_far: Vec<u8> = (0..64u8).filter(|&s| p.sq[s as usize].is_none() && !adjacent(s, ks) && s != ks && Some(s) != keep_empty).collect();
         let ak = free_far[(splitmix(&mut rng) % free_far.len() as u64) as usize];
         p.sq[ak as usize] = Some((P::King, att));
         for f in 0..64u8 {
-            if !adjacent(f, ks) || p.sq[f as usize].is_some() {
+            if !adjacent(f, ks) || p.sq[f as usize].is_some() || Some(f) == keep_empty {
                 continue;
             }
             if splitmix(&mut rng) % 10 < 5 {
@@ -1141,7 +1148,7 @@ pub fn construct_terminal(ks: u8, kind: P, mated: Side, stalemate: bool, seed: u
         for _ in 0..n_extra {
             let s = (splitmix(&mut rng) % 64) as u8;
             let k = extras[(splitmix(&mut rng) % extras.len() as u64) as usize];
-            if p.sq[s as usize].is_none() && (k != P::Pawn || pawn_ok(s)) {
+            if p.sq[s as usize].is_none() && Some(s) != keep_empty && (k != P::Pawn || pawn_ok(s)) {
                 p.sq[s as usize] = Some((k, att));
             }
         }
@@ -1244,8 +1251,101 @@ pub fn walk(max_len: usize) -> BoxedStrategy<Walk> {
 }
 
 /// Rule-interaction-biased mix of set-up and reachable positions, as a FEN string.
+/// Seven to nine queens of the side to move on an open board (move lists of 130..220 moves),
+/// the other king walled into a corner by its own men so that the position is legal, and a few
+/// enemy pieces around so that some king steps, pawn moves or queen moves of the mover are
+/// illegal (attacked squares, pins, checks).
+pub fn queen_swarm() -> BoxedStrategy<String> {
+    (
+        (prop::collection::vec(0u8..64, 8..=9), prop::collection::vec(0u8..64, 0..=4)),
+        0u8..64,
+        prop::collection::vec((0u8..64, prop_oneof![Just(P::Rook), Just(P::Bishop), Just(P::Queen), Just(P::Knight)]), 1..4),
+        prop::collection::vec((0u8..64, any::<bool>()), 0..3),
+        0u8..4,
+        any::<bool>(),
+    )
+        .prop_map(|((queens, heavies), mk, enemies, pawns, corner, white_moves)| {
+            let mover = if white_moves { Side::White } else { Side::Black };
+            let other = mover.other();
+            let flip = |f: i8, r: i8| -> u8 {
+                let f = if corner & 1 == 1 { 7 - f } else { f };
+                let r = if corner & 2 == 2 { 7 - r } else { r };
+                sq_of(f, r).unwrap()
+            };
+            let mut p = Pos::empty();
+            // the walled-in king: corner square, its three neighbours held by its own men
+            p.sq[flip(0, 7) as usize] = Some((P::King, other));
+            p.sq[flip(1, 7) as usize] = Some((P::Knight, other));
+            p.sq[flip(0, 6) as usize] = Some((P::Pawn, other));
+            p.sq[flip(1, 6) as usize] = Some((P::Pawn, other));
+            let wall = [flip(0, 7), flip(1, 7), flip(0, 6), flip(1, 6)];
+            // a pawn on its own first/last rank is impossible: swap it for a bishop there
+            for s in wall {
+                if let Some((P::Pawn, c)) = p.sq[s as usize] {
+                    if rank_of(s) == 0 || rank_of(s) == 7 {
+                        p.sq[s as usize] = Some((P::Bishop, c));
+                    }
+                }
+            }
+            let mut mk = mk;
+            let mut guard = 0;
+            while (p.sq[mk as usize].is_some() || adjacent(mk, flip(0, 7))) && guard < 64 {
+                mk = (mk + 7) % 64;
+                guard += 1;
+            }
+            p.sq[mk as usize] = Some((P::King, mover));
+            for q in queens {
+                if p.sq[q as usize].is_none() {
+                    p.sq[q as usize] = Some((P::Queen, mover));
+                }
+            }
+            // two rooks and two bishops at most: nine queens use up all eight promotions
+            for (i, h) in heavies.into_iter().enumerate() {
+                if p.sq[h as usize].is_none() {
+                    p.sq[h as usize] = Some((if i < 2 { P::Rook } else { P::Bishop }, mover));
+                }
+            }
+            for (s, k) in enemies {
+                if p.sq[s as usize].is_none() {
+                    p.sq[s as usize] = Some((k, other));
+                }
+            }
+            for (s, mine) in pawns {
+                if p.sq[s as usize].is_none() && rank_of(s) != 0 && rank_of(s) != 7 {
+                    p.sq[s as usize] = Some((P::Pawn, if mine { mover } else { other }));
+                }
+            }
+            p.side = mover;
+            p.rights = 0;
+            p.ep = None;
+            p.half = 0;
+            // the wall keeps every line to the corner closed, knights excepted: a consistent
+            // position almost always; otherwise thin out the mover's men until it is
+            let mut rounds = 0;
+            while p.consistent().is_err() && rounds < 12 {
+                let k = p.king_sq(other).unwrap();
+                for s in 0..64u8 {
+                    if let Some((pc, c)) = p.sq[s as usize] {
+                        if c == mover && pc != P::King && p.piece_attacks(s, pc, c, k) {
+                            p.sq[s as usize] = None;
+                        }
+                    }
+                }
+                rounds += 1;
+            }
+            if p.consistent().is_err() {
+                return "QQQ4k/8/8/8/8/8/8/K4qqq w - - 0 1".to_string();
+            }
+            p.fen()
+        })
+        .boxed()
+}
+
 pub fn position() -> BoxedStrategy<String> {
     prop_oneof![
+        1 => queen_swarm(),
+        1 => tactical_crowd(),
+        1 => material_extreme().prop_map(|r| build(&r).fen()),
         3 => placement(28).prop_map(|r| build(&r).fen()),
         2 => pawn_placement().prop_map(|r| build(&r).fen()),
         3 => castle_theme().prop_map(|r| build(&r).fen()),
